@@ -68,6 +68,32 @@ def run(ctx):
                 ctx.violation('C18.W1', f.name, 'cleaner-writes:%s' % e.get('name'), f.where(e),
                               'Cleaner method %s writes to the file system' % f.name)
     who_may_call(ctx, 'C18.W1', 'Cleaner::RemoveFile', {'Cleaner::Remove': 'the single removal site'}, 'removal')
+    # the clean tools change nothing on disk except through that site (so a dry run, which is decided there, changes
+    # nothing at all): from NinjaMain::ToolClean / ToolCleanDead no file-system mutation is reachable on a call path that
+    # does not go through Cleaner::RemoveFile (the logs are not rewritten, nothing is created)
+    MUT = ('fs-write', 'fs-remove', 'fs-mkdir', 'fs-rename', 'fs-truncate', 'fs-open-write', 'spawn', 'buildlog-append', 'depslog-append')
+    rmf = prog.fn('Cleaner::RemoveFile').id
+    ntool = 0
+    for tname in ('NinjaMain::ToolClean', 'NinjaMain::ToolCleanDead'):
+        for tf in prog.fns(tname):
+            ntool += 1
+            seen, work, hit = {tf.id}, [(tf.id, [tf.name])], None
+            while work and hit is None:
+                fid, chain = work.pop()
+                g = prog.functions[fid]
+                for eff_, ev in prog.direct_effects(g):
+                    if eff_ in MUT or eff_.startswith('fs-') and eff_ not in ('fs-read', 'fs-stat'):
+                        hit = (eff_, chain + ['%s: %s' % (g.where(ev), ev.get('name'))])
+                        break
+                for ev in list(g.events('call')) + list(g.events('new')):
+                    for t in (prog.call_targets(ev) if ev['k'] == 'call' else [ev.get('fn')]):
+                        if t in prog.functions and t not in seen and t != rmf:
+                            seen.add(t)
+                            work.append((t, chain + [prog.functions[t].name]))
+            ctx.check('C18.W1', hit is None, tf.name, 'clean-tool:mutation-outside-RemoveFile', tf.loc,
+                      '%s reaches no file-system mutation except through Cleaner::RemoveFile (%d functions in its call cone)' % (tf.name, len(seen)),
+                      witness=None if hit is None else {'effect': hit[0], 'call_chain': hit[1][-6:]})
+    ctx.check('C18.W1', ntool == 2, 'NinjaMain', 'clean-tool:anchors', 'src/ninja.cc', 'ToolClean and ToolCleanDead found')
     rm = prog.fn('Cleaner::Remove')
     for e in rm.calls('Cleaner::RemoveFile'):
         guarded(ctx, 'C18.W1', rm, e, lambda a: mentions_field(a, 'BuildConfig::dry_run'), False,
